@@ -9,6 +9,8 @@ SHORT = 'actions'
 
 ENV = '''
 use std::collections::VecDeque;
+pub assume_specification<T, A: std::alloc::Allocator> [VecDeque::<T, A>::is_empty] (v: &VecDeque<T, A>) -> (r: bool)
+    ensures r == (v@.len() == 0);
 #[derive(Clone, Copy, PartialEq, Eq, Structural)]
 pub struct StatusCode { pub bits: u32 }
 impl StatusCode {
@@ -55,7 +57,12 @@ SPEC = {
     'enqueue_notification': (None, '''        requires notification.sequence_number == seq_after(old(self).last_sequence_number),
         ensures final(self).notifications@ == old(self).notifications@.push(notification),
             final(self).last_sequence_number == notification.sequence_number,
-            final(self).sequence_number == old(self).sequence_number, final(self).monitored_items == old(self).monitored_items,'''),
+            final(self).sequence_number == old(self).sequence_number, final(self).monitored_items == old(self).monitored_items,
+            final(self).state == old(self).state,'''),
+    'ready_to_remove': ('r', '''        ensures
+            // a subscription is only dropped once it is closed AND every queued message (in particular the BadTimeout
+            // status change of an expiry) has been taken by a publish response
+            r == (self.state == SubscriptionState::Closed && self.notifications@.len() == 0),'''),
     'handle_state_result': (None, '''        requires seq_inv(*old(self)),
             // a notification handed in by tick_monitored_items took the number the handle had issued last
             notification is Some ==> notification->Some_0.sequence_number == seq_after(old(self).last_sequence_number)
@@ -106,9 +113,9 @@ def build(manifest):
     sub = Src('server/subscriptions/subscription.rs', manifest)
     hd = Src('core/handle.rs', manifest)
     types = '\n'.join([
-        sub.enum('UpdateStateAction'), sub.enum('HandledState'), sub.struct('UpdateStateResult'),
+        sub.enum('SubscriptionState'), sub.enum('UpdateStateAction'), sub.enum('HandledState'), sub.struct('UpdateStateResult'),
         hd.struct('Handle', derive='Clone, Copy, PartialEq, Eq, Structural'),
-        sub.struct('Subscription', keep_fields=['monitored_items', 'sequence_number', 'last_sequence_number', 'notifications']),
+        sub.struct('Subscription', keep_fields=['monitored_items', 'state', 'sequence_number', 'last_sequence_number', 'notifications']),
     ])
     # D3 (typed slice): the map of monitored items is only cleared here; it is replaced by an environment type with clear()
     types2 = types.replace('HashMap<u32, MonitoredItem>', 'MonitoredItems')
@@ -117,19 +124,20 @@ def build(manifest):
     f = {}
     for n in ['next', 'set_next']:
         f[n] = splice_contract(norm_vis(clean_fn(hd.impl_fn(r'^impl Handle \{', n))), SPEC[n][1], SPEC[n][0])
-    for n in ['enqueue_notification', 'handle_state_result']:
+    for n in ['ready_to_remove', 'enqueue_notification', 'handle_state_result']:
         t = norm_vis(clean_fn(sub.impl_fn(r'^impl Subscription \{', n)))
         t = re.sub(r'^(\s*)fn ', r'\1pub fn ', t, count=1) if not re.match(r'\s*pub ', t) else t
         f[n] = splice_contract(t, SPEC[n][1], SPEC[n][0])
     # `DateTime::from(*now)` is the From<DateTimeUtc> conversion: kept as a call of the environment function DateTime::from
     a = Asm()
-    a.add('use vstd::prelude::*;\nverus! {\nglobal size_of usize == 8;\n', 'prelude', 'env')
+    a.add('#![feature(allocator_api)]\nuse vstd::prelude::*;\nverus! {\nglobal size_of usize == 8;\n', 'prelude', 'env')
     a.add(ENV, 'env', 'env')
     a.add(norm_vis(types2), 'types', 'env')
     a.add('impl Handle {')
     a.add(f['next'], 'Handle::next', 'fn')
     a.add(f['set_next'], 'Handle::set_next', 'fn')
     a.add('}\nimpl Subscription {')
+    a.add(f['ready_to_remove'], 'ready_to_remove', 'fn')
     a.add(f['enqueue_notification'], 'enqueue_notification', 'fn')
     a.add(f['handle_state_result'], 'handle_state_result', 'fn')
     a.add('}')
